@@ -63,12 +63,13 @@ theorem C05_expand_spec_nonvacuous :
 
 /-- The appended part: `_get_crossreferenced_citations` yields exactly the parents that are not
 cited, in the order in which the number of references to them — counted along the cited list —
-reaches `min_crossrefs`, and reports exactly the dangling cross-references of cited entries. -/
+reaches `min_crossrefs`, and reports exactly the dangling cross-references of the entries that
+go into the bibliography: the cited ones, then the appended ones (repair C05-2). -/
 theorem C05_crossref_spec (db : BibData) (hdb : DbWF db) (citations : List Str) (minCrossrefs : Int) :
     db.addExtraCitations citations minCrossrefs =
       (resolved db.toS citations minCrossrefs,
-       (dangling db.toS (expanded db.toS citations)).map fun p => Report.badCrossref p.1 p.2) := by
-  simp only [BibData.addExtraCitations, crossreferenced_spec hdb, expandWildcard_spec hdb, resolved]
+       (dangling db.toS (resolved db.toS citations minCrossrefs)).map fun p => Report.badCrossref p.1 p.2) :=
+  addExtra_spec hdb citations minCrossrefs
 
 theorem C05_crossref_spec_nonvacuous :
     (readAllOf exFile).addExtraCitations (strs ["C2", "d", "c1"]) 2
@@ -273,18 +274,20 @@ theorem C05_missing_reported_nonvacuous :
     pythonEngine exFile (strs ["c1", "nope", "C2"]) 2 =
       some ⟨(strs ["c1", "C2", "P"]), [Report.missingEntry "nope".toList]⟩ := by decide
 
-/-- A dangling cross-reference of a cited entry is reported — exactly those, once each, in
-citation order — and its target is never added: every appended key has a database entry. -/
+/-- A dangling cross-reference of an entry that goes into the bibliography — cited, or appended
+by the threshold — is reported: exactly those, once each, in the order of the resolved list; and
+the target of a dangling reference is never added: every appended key has a database entry. -/
 theorem C05_dangling_reported (db : BibData) (hdb : DbWF db) (citations : List Str) (minCrossrefs : Int) :
     let res := db.addExtraCitations citations minCrossrefs
-    res.2 = (dangling db.toS (db.expandWildcard citations)).map (fun p => Report.badCrossref p.1 p.2) ∧
-    (∀ c x, (c, x) ∈ dangling db.toS (db.expandWildcard citations) ↔
-        c ∈ db.expandWildcard citations ∧ ∃ e, find db.toS c = some e ∧ e.crossref = some x ∧ find db.toS x = none) ∧
+    res.2 = (dangling db.toS res.1).map (fun p => Report.badCrossref p.1 p.2) ∧
+    (∀ c x, (c, x) ∈ dangling db.toS res.1 ↔
+        c ∈ res.1 ∧ ∃ e, find db.toS c = some e ∧ e.crossref = some x ∧ find db.toS x = none) ∧
     (∀ k ∈ (db.crossreferenced (db.expandWildcard citations) minCrossrefs).1, (find db.toS k).isSome = true) := by
   intro res
   refine ⟨?_, ?_, ?_⟩
-  · simp only [res, C05_crossref_spec db hdb, expandWildcard_spec hdb]
+  · simp only [res, C05_crossref_spec db hdb]
   · intro c x
+    generalize res.1 = L
     simp only [dangling, List.mem_filterMap]
     constructor
     · rintro ⟨c', hc', h⟩
@@ -313,14 +316,22 @@ theorem C05_dangling_reported (db : BibData) (hdb : DbWF db) (citations : List S
 
 theorem C05_dangling_reported_nonvacuous :
     ((readAllOf exFile).addExtraCitations (strs ["d", "*"]) 1).2
-      = [Report.badCrossref "d".toList "nowhere".toList] := by decide
+      = [Report.badCrossref "d".toList "nowhere".toList] ∧
+    -- the appended parent `par` has a dangling cross-reference of its own: reported after those of the cited entries
+    (readAllOf [mk "child" (some "par"), mk "d" (some "nowhere"), mk "par" (some "gone")]).addExtraCitations (strs ["child", "d"]) 1
+      = (strs ["child", "d", "par"],
+         [Report.badCrossref "d".toList "nowhere".toList, Report.badCrossref "par".toList "gone".toList]) := by decide
 
-/-- The spelling in the citation list wins.  (1) In the resolved list an explicitly cited key
-(before any wildcard) appears exactly as first cited, whatever the database calls it
-(`C05_cited_first_in_order`).  (2) The filtered reading both engines use stores every entry
+/-- The spelling in the citation list wins — as far as it does.  (1) In the resolved list an
+explicitly cited key that comes BEFORE any wildcard appears exactly as first cited, whatever the
+database calls it (`C05_cited_first_in_order`); a key cited only after a `*` has already been
+contributed by the wildcard in the database's spelling (`['*', 'DOS']` against the key `dos`
+gives `dos`): there the result is as demanded only up to the letter case of keys, which is what
+the property's quantifier grants.  (2) The FILTERED reading both engines use stores every entry
 whose key matches a citation under a spelling taken from the citation list, so `entry.key` —
 what the Python engine emits — is a citation's spelling; when the citations of that key are
-spelled consistently it is that spelling. -/
+spelled consistently it is that spelling.  (Nothing of the kind holds for the unfiltered
+reading, which has no citation list to take spellings from.) -/
 theorem C05_citation_spelling_wins (file : List (Str × Entry)) (hf : ∀ p ∈ file, EntryWF p.2)
     (citations : List Str) :
     ∃ db rep, BibData.readFile (some citations) file = some (db, rep) ∧
@@ -348,20 +359,21 @@ theorem C05_citation_spelling_wins_nonvacuous :
     bibtexEngine exFile (strs ["C1", "c2"]) 2 = some ⟨(strs ["C1", "c2", "P"]), []⟩ := by decide
 
 /-- Reading the file restricted to the wanted citations (what both engines do) and then
-resolving gives the same keys and the same dangling-reference reports as reading the whole file
-and selecting afterwards, up to the letter case of keys — PROVIDED the ordering proviso of
-`Spec.proviso` holds: a wildcard is cited, or every parent referenced by (the effective entry
-of) a cited key is itself cited, or absent from the file, or occurs in the file after the
-effective entry of a cited child that references it.  Without the proviso the statement is
-false: `C05_filtered_neg`. -/
+resolving gives the same KEYS, and the same dangling references of the cited entries, as reading
+the whole file and selecting afterwards, up to the letter case of keys — PROVIDED the ordering
+proviso of `Spec.proviso` holds: a wildcard is cited, or every parent referenced by (the
+effective entry of) a cited key is itself cited, or absent from the file, or occurs in the file
+after the effective entry of a cited child that references it.  Without the proviso the
+statement is false: `C05_filtered_neg`.  It says nothing about WHICH entry is stored under an
+appended key: that needs more (`C05_filtered_entries_partial`, `C05_filtered_entries_neg`). -/
 theorem C05_filtered_eq_unfiltered_partial (file : List (Str × Entry)) (hf : ∀ p ∈ file, EntryWF p.2)
     (citations : List Str) (minCrossrefs : Int) (hprov : proviso (file.map rawToS) citations = true) :
     ∃ U repU F repF, BibData.readFile none file = some (U, repU) ∧
       BibData.readFile (some citations) file = some (F, repF) ∧
       (F.addExtraCitations citations minCrossrefs).1.map lower =
         (U.addExtraCitations citations minCrossrefs).1.map lower ∧
-      (F.addExtraCitations citations minCrossrefs).2.map Report.lower =
-        (U.addExtraCitations citations minCrossrefs).2.map Report.lower :=
+      (dangling F.toS (F.expandWildcard citations)).map low2 =
+        (dangling U.toS (U.expandWildcard citations)).map low2 :=
   filtered_eq_unfiltered file hf citations minCrossrefs hprov
 
 theorem C05_filtered_eq_unfiltered_partial_nonvacuous :
@@ -375,6 +387,68 @@ theorem C05_filtered_eq_unfiltered_partial_nonvacuous :
     proviso ([mk "P" none, mk "c" (some "P")].map rawToS) (strs ["c", "p"]) = true ∧
     proviso ([mk "P" none, mk "c" (some "P")].map rawToS) (strs ["c", "*"]) = true ∧
     proviso ([mk "P" none, mk "c" (some "P")].map rawToS) (strs ["c"]) = false := by decide
+
+/-- "The same result": under the strong ordering proviso `Spec.provisoStrong` — `proviso`, and
+the FIRST entry of every uncited parent comes after the effective entry of a cited child that
+references it, with the target of its own cross-reference cited, absent or later still — the
+filtered reading stores under every key of the resolved list THE SAME ENTRY (type, fields,
+persons) as the unfiltered reading, an entry in the one iff in the other, and
+`add_extra_citations` gives the same keys and the same reports (dangling references of cited and
+of appended entries), up to the letter case of keys. -/
+theorem C05_filtered_entries_partial (file : List (Str × Entry)) (hf : ∀ p ∈ file, EntryWF p.2)
+    (citations : List Str) (minCrossrefs : Int) (hprov : provisoStrong (file.map rawToS) citations = true) :
+    ∃ U repU F repF, BibData.readFile none file = some (U, repU) ∧
+      BibData.readFile (some citations) file = some (F, repF) ∧
+      (F.addExtraCitations citations minCrossrefs).1.map lower =
+        (U.addExtraCitations citations minCrossrefs).1.map lower ∧
+      (F.addExtraCitations citations minCrossrefs).2.map Report.lower =
+        (U.addExtraCitations citations minCrossrefs).2.map Report.lower ∧
+      ∀ k ∈ (U.addExtraCitations citations minCrossrefs).1,
+        (F.entries.getItem k).map Entry.content = (U.entries.getItem k).map Entry.content :=
+  filtered_entries file hf citations minCrossrefs hprov
+
+/-- entries with distinguishable contents: `@misc{key, note = {v}}` / `@misc{key, note = {v}, crossref = {x}}` -/
+def C05Ex.mkv (key v : String) (xref : Option String) : Str × Entry :=
+  (key.toList,
+   { key := [], type := "misc".toList,
+     fields := CIDict.ofPairs (("note".toList, v.toList) ::
+       (match xref with | some x => [("crossref".toList, x.toList)] | none => [])),
+     persons := CIDict.empty })
+
+/-- what the database holds under `k`: the note -/
+def C05Ex.noteOf (r : Option (BibData × List Report)) (k : String) : Option Str :=
+  r.bind fun r => (r.1.entries.getItem k.toList).bind fun e => e.fields.getItem "note".toList
+
+theorem C05_filtered_entries_partial_nonvacuous :
+    let file := [mkv "c" "vc" (some "P"), mkv "p" "v1" (some "G"), mkv "P" "v2" none, mkv "g" "vg" none]
+    (∀ p ∈ file, EntryWF p.2) ∧ provisoStrong (file.map rawToS) (strs ["C"]) = true ∧
+    -- the first of the two parents is the one stored, in both readings; its own parent `g` follows it
+    noteOf (BibData.readFile (some (strs ["C"])) file) "P" = some "v1".toList ∧
+    noteOf (BibData.readFile none file) "P" = some "v1".toList ∧
+    (BibData.readFile (some (strs ["C"])) file).map (fun r => r.1.addExtraCitations (strs ["C"]) 1) =
+      some (strs ["C", "p"], []) ∧
+    -- the proviso fails when a duplicate of the parent precedes the child, or when the parent's own parent precedes it
+    provisoStrong ([mkv "a" "v1" none, mkv "c" "vc" (some "a"), mkv "A" "v2" none].map rawToS) (strs ["c"]) = false ∧
+    provisoStrong ([mkv "g" "vg" none, mkv "c" "vc" (some "p"), mkv "p" "vp" (some "g")].map rawToS) (strs ["c"]) = false := by
+  decide
+
+/-- The weak proviso is not enough for "the same result": the uncited parent `a` (note `v1`)
+precedes its cited child `c`, and a second entry with the same key (`A`, note `v2`) follows.
+`proviso` holds and both readings resolve to the same keys up to case — but read whole, `a`
+keeps the FIRST entry (`v1`, and the second is reported as repeated); read filtered by the
+citations, the first one is skipped and the SECOND is stored (`v2`), nothing is reported.
+(Finding C05-filtered-duplicate-parent.) -/
+theorem C05_filtered_entries_neg :
+    let file := [mkv "a" "v1" none, mkv "c" "vc" (some "a"), mkv "A" "v2" none]
+    let cits := ["c".toList]
+    proviso (file.map rawToS) cits = true ∧ provisoStrong (file.map rawToS) cits = false ∧
+    (BibData.readFile none file).map (fun r => (r.1.addExtraCitations cits 1, r.2)) =
+      some ((strs ["c", "a"], []), [Report.repeated "A".toList]) ∧
+    (BibData.readFile (some cits) file).map (fun r => (r.1.addExtraCitations cits 1, r.2)) =
+      some ((strs ["c", "A"], []), []) ∧
+    noteOf (BibData.readFile none file) "a" = some "v1".toList ∧
+    noteOf (BibData.readFile (some cits) file) "a" = some "v2".toList := by
+  decide
 
 /-- Finding #16: the full statement "filtered reading = unfiltered reading" is false of the code.
 Witness: the uncited parent `P` precedes its only child `c`; read whole, `c` brings `P` in; read
